@@ -14,6 +14,7 @@ import (
 
 	"github.com/bufbuild/protocompile/experimental/report"
 	"github.com/bufbuild/protocompile/experimental/source"
+	compilerpb "github.com/bufbuild/protocompile/internal/gen/buf/compiler/v1alpha1"
 	"github.com/bufbuild/protocompile/internal/verifmon/vlib"
 )
 
@@ -217,7 +218,7 @@ func c37Deep(a, b reflect.Value, path string) (where, av, bv string) {
 		case fa.Path() != fb.Path():
 			return path + ".Path()", fa.Path(), fb.Path()
 		case fa.Text() != fb.Text():
-			return path + ".Text()", fmt.Sprintf("%+q", fa.Text()), fmt.Sprintf("%+q", fb.Text())
+			return c37FileTextMark + fa.Path(), fa.Text(), fb.Text()
 		}
 		return "", "", ""
 	}
@@ -269,10 +270,43 @@ func c37Deep(a, b reflect.Value, path string) (where, av, bv string) {
 
 var c37Digits = regexp.MustCompile(`[0-9]+`)
 
+// c37FileTextMark prefixes the "where" of a difference in a file's text; the
+// file's path follows.
+const c37FileTextMark = "\x00file-text\x00"
+
+// c37FirstSpanText returns the text covered by the first annotation (in
+// report order) that refers to a file with this path.
+func c37FirstSpanText(m c37Report, path string) (string, bool) {
+	for _, d := range m.Diags {
+		for _, s := range d.Snips {
+			if m.Files[s.File].Path == path {
+				return m.Files[s.File].Text[s.Start:s.End], true
+			}
+		}
+	}
+	return "", false
+}
+
+// c37FileTextSig names how a file text that did not survive relates to the input.
+func c37FileTextSig(m c37Report, path, before, after string) string {
+	first, ok := c37FirstSpanText(m, path)
+	switch {
+	case ok && after == first && after != before:
+		return "the text of the file's first annotation span"
+	case strings.HasPrefix(before, after):
+		return "a truncation of the file"
+	default:
+		return "something else"
+	}
+}
+
+var c37AnnIdx = regexp.MustCompile(`diagnostic\[(\d+)\]\.annotation\[(\d+)\]`)
+
 // c37OffendingSpan classifies the annotation a decoder error of the form
-// "…diagnostic[i].annotation[j]…" points at.
-func c37OffendingSpan(m c37Report, errText string) string {
-	idx := regexp.MustCompile(`diagnostic\[(\d+)\]\.annotation\[(\d+)\]`).FindStringSubmatch(errText)
+// "…diagnostic[i].annotation[j]…" points at, looking at the model and at the
+// encoded message the decoder was given.
+func c37OffendingSpan(m c37Report, pb proto.Message, errText string) string {
+	idx := c37AnnIdx.FindStringSubmatch(errText)
 	if idx == nil {
 		return "?"
 	}
@@ -283,16 +317,29 @@ func c37OffendingSpan(m c37Report, errText string) string {
 		return "annotation index outside the report"
 	}
 	s := m.Diags[i].Snips[j]
-	n := len(m.Files[s.File].Text)
-	switch {
-	case s.Start < 0 || s.End > n || s.Start > s.End:
+	text := m.Files[s.File].Text
+	n := len(text)
+	if s.Start < 0 || s.End > n || s.Start > s.End {
 		return "span really out of bounds (generator bug)"
+	}
+	if enc, ok := pb.(*compilerpb.Report); ok && i < len(enc.GetDiagnostics()) && j < len(enc.GetDiagnostics()[i].GetAnnotations()) {
+		ann := enc.GetDiagnostics()[i].GetAnnotations()[j]
+		if int(ann.GetStart()) != s.Start || int(ann.GetEnd()) != s.End {
+			return "encoded start/end differ from the annotation's"
+		}
+		if int(ann.GetFile()) < len(enc.GetFiles()) {
+			if et := string(enc.GetFiles()[ann.GetFile()].GetText()); et != text {
+				return "encoded file text is not the file's text but " + c37FileTextSig(m, m.Files[s.File].Path, text, et)
+			}
+		}
+	}
+	switch {
 	case n == 0:
-		return "span [0:0] in an empty file"
+		return "span [0:0] in an empty file (file text encoded correctly)"
 	case s.Start == n:
-		return "zero-width span at end of file (start == end == len(text) > 0)"
+		return "zero-width span at end of file, start == end == len(text) > 0 (file text encoded correctly)"
 	default:
-		return "span inside the file"
+		return "span inside the file (file text encoded correctly)"
 	}
 }
 
@@ -344,7 +391,7 @@ func c37Check(r *vlib.Run, id string, m c37Report) (out c37Outcome) {
 		sig := norm
 		switch {
 		case strings.Contains(et, "out-of-bounds span"):
-			sig = "out-of-bounds span: " + c37OffendingSpan(m, et)
+			sig = "out-of-bounds span: " + c37OffendingSpan(m, pb, et)
 		case strings.Contains(et, "invalid value for Diagnostic.level"):
 			lv := strings.TrimSpace(et[strings.LastIndex(et, ":")+1:])
 			name := "?"
@@ -364,9 +411,18 @@ func c37Check(r *vlib.Run, id string, m c37Report) (out c37Outcome) {
 			wit(map[string]any{"before": len(orig.Diagnostics), "after": len(back.Diagnostics)}))
 		return
 	}
+	fileText := func(i int, path, before, after string) {
+		r.Violation("roundtrip.file-text", "file text not preserved: decoded text is "+c37FileTextSig(m, path, before, after), id,
+			wit(map[string]any{"diagnostic": i, "path": path, "before": fmt.Sprintf("%+q", before), "after": fmt.Sprintf("%+q", after)}))
+	}
 	for i := range orig.Diagnostics {
 		a, b := &orig.Diagnostics[i], &back.Diagnostics[i]
 		if what, av, bv := c37Accessors(a, b); what != "" {
+			if what == "Primary().File.Text()" {
+				sa, sb := a.Primary(), b.Primary()
+				fileText(i, sa.Path(), sa.File.Text(), sb.File.Text())
+				return
+			}
 			r.Violation("roundtrip.accessor", what+" differs", id, wit(map[string]any{"diagnostic": i, "before": av, "after": bv}))
 			return
 		}
@@ -375,6 +431,10 @@ func c37Check(r *vlib.Run, id string, m c37Report) (out c37Outcome) {
 			where, av, bv = c37Deep(reflect.ValueOf(a).Elem(), reflect.ValueOf(b).Elem(), "Diagnostic")
 		}); pv != nil {
 			r.Inconclusive(fmt.Sprint(pv))
+			return
+		}
+		if p, ok := strings.CutPrefix(where, c37FileTextMark); ok {
+			fileText(i, p, av, bv)
 			return
 		}
 		if where != "" {
@@ -526,6 +586,23 @@ func c37Grid() (cases []c37Report, names []string) {
 			}
 		}
 	}
+	// F: like B, but the snippet under test is preceded by one that covers the
+	// whole file (the first annotation of a file is what ToProto takes the file's text from).
+	for lv := 1; lv <= 4; lv++ {
+		for ti, text := range c37GridTexts {
+			for _, sk := range c37SpanKinds(text) {
+				for deco := 0; deco < c37NDeco; deco++ {
+					d := c37Diag{Level: lv, Msg: "bad thing", Snips: []c37Snip{
+						{File: 0, Start: 0, End: len(text), Msg: "whole file"},
+						{File: 0, Start: sk.start, End: sk.end, Msg: "here \u20ac"},
+					}}
+					c37Decorate(&d, deco)
+					add(fmt.Sprintf("F/%s/t%d/%s/%s", c37LevelNames[lv], ti, sk.name, c37DecoNames[deco]),
+						c37Report{Files: []c37File{{path(0), text}}, Diags: []c37Diag{d}})
+				}
+			}
+		}
+	}
 	// C: two snippets, every ordered pair of (text, span) in two files, and every pair in one file.
 	type ts struct {
 		ti int
@@ -600,6 +677,13 @@ func c37Grid() (cases []c37Report, names []string) {
 			add(fmt.Sprintf("E/t%d/rot%d", ti, rot), c37Report{Files: files, Diags: diags})
 			// the same without the ICE level, so that the other levels are compared when ICE is refused
 			add(fmt.Sprintf("E-noICE/t%d/rot%d", ti, rot), c37Report{Files: files, Diags: diags[1:]})
+			// and both once more behind a diagnostic whose annotations cover both files entirely
+			anchor := c37Diag{Level: 4, Msg: "anchor", Snips: []c37Snip{
+				{File: 0, Start: 0, End: len(files[0].Text), Msg: "all of file 0"},
+				{File: 1, Start: 0, End: len(files[1].Text), Msg: "all of file 1"},
+			}}
+			add(fmt.Sprintf("E-anchored/t%d/rot%d", ti, rot), c37Report{Files: files, Diags: append([]c37Diag{anchor}, diags...)})
+			add(fmt.Sprintf("E-anchored-noICE/t%d/rot%d", ti, rot), c37Report{Files: files, Diags: append([]c37Diag{anchor}, diags[1:]...)})
 		}
 	}
 	return cases, names
@@ -651,7 +735,10 @@ func c37RandText(rng *vlib.RNG, allowEmpty, rawBytes bool) string {
 func c37Random(rng *vlib.RNG) (m c37Report, cls string) {
 	allowICE, allowEOF, allowEmpty := rng.Bool(), rng.Bool(), rng.Bool()
 	rawBytes := rng.Chance(0.1)
-	cls = fmt.Sprintf("ice=%v,eofspan=%v,emptyfile=%v", allowICE, allowEOF, allowEmpty)
+	// anchored: the first annotation that refers to a file covers the whole file
+	anchored := rng.Bool()
+	anchoredPaths := map[string]bool{}
+	cls = fmt.Sprintf("ice=%v,eofspan=%v,emptyfile=%v,anchored=%v", allowICE, allowEOF, allowEmpty, anchored)
 	nf := rng.Range(1, 4)
 	for i := 0; i < nf; i++ {
 		p := fmt.Sprintf("pkg%d/file %d.proto", rng.Intn(3), i)
@@ -711,6 +798,10 @@ func c37Random(rng *vlib.RNG) (m c37Report, cls string) {
 			}
 			if !allowEmpty && n == 0 {
 				panic("generator: empty text without allowEmpty")
+			}
+			if anchored && !anchoredPaths[m.Files[fi].Path] {
+				anchoredPaths[m.Files[fi].Path] = true
+				s, e = 0, n
 			}
 			sn := c37Snip{File: fi, Start: s, End: e, Msg: c37RandStr(rng, true), PageBreak: rng.Chance(0.2)}
 			if rng.Chance(0.3) {
